@@ -1079,6 +1079,17 @@ package p9p
 //@ func (*encoder).encode
 //@ inline
 //@ recursion 16
+// Rwalk's qid list goes through a []interface{} of pointers to the elements (only under contracts that `use elemptrs`):
+// the ghost names the slice for the recursive call's main loop (cut only when len(vs) is symbolic).
+//@ at "for i := range v {" pre gqid(e) := v#LJp9p_Qid
+//@ at "for i := range v {" pre gkind(e) := 2
+//@ loop 1 invariant gkind(e) == 2 && len(vs) == len(gqid(e)) && forall(k, 0, len(vs), vs[k] == toiface(elemptr(gqid(e), k)))
+//@ loop 1 invariant e.wr == entry(e.wr) && typeis(e.wr, *bytes.Buffer) && gqid(e) == entry(gqid(e))
+// (the unfolding of the recursive definition at the current length, stated so that the next clause can use it)
+//@ loop 1 invariant unfold: $done > 0 ==> qidsUpto(gqid(e), $done) == bcat(qidsUpto(gqid(e), $done - 1), encQid(gqid(e)[$done - 1]))
+//@ loop 1 invariant out(e.wr) == bcat(entry(out(e.wr)), qidsUpto(gqid(e), $done))
+//@ loop 3 invariant gkind(e) == 2 && gqid(e) == v#LJp9p_Qid && out(e.wr) == entry(out(e.wr)) && e.wr == entry(e.wr)
+//@ loop 3 invariant len(elements#LJinterface__) == len(v#LJp9p_Qid) && forall(k, 0, $done, elements#LJinterface__[k] == toiface(elemptr(v#LJp9p_Qid, k)))
 // loop 2: `for _, m := range v` of the []string case (v#2: the type-switch binding, after the range variable v)
 //@ loop 2 invariant 0 <= $done && $done <= len(v#LJstring)
 //@ loop 2 invariant out(e.wr) == bcat(entry(out(e.wr)), namesUpto(v#LJstring, $done))
@@ -1086,6 +1097,13 @@ package p9p
 //@ func size9p
 //@ inline
 //@ recursion 16
+// []Qid: sized through a []interface{} of element pointers (under `elemptrs`; size9p has no receiver: the ghosts are keyed by 0)
+//@ at "for i := range elements {" pre gqid(0) := v#LJp9p_Qid
+//@ at "for i := range elements {" pre gkind(0) := 2
+//@ loop 1 invariant gkind(0) == 2 && gqid(0) == entry(gqid(0)) && len(vs) == len(gqid(0)) && len(vs) <= 65535 && forall(k, 0, len(vs), vs[k] == toiface(elemptr(gqid(0), k)))
+//@ loop 1 invariant s#uint32 == 13 * $done
+//@ loop 3 invariant gkind(0) == 2 && gqid(0) == v#LJp9p_Qid && s#uint32 == entry(s#uint32) && len(v#LJp9p_Qid) <= 65535
+//@ loop 3 invariant len(elements#LJinterface__) == len(v#LJp9p_Qid) && forall(k, 0, $done, elements#LJinterface__[k] == toiface(elemptr(v#LJp9p_Qid, k)))
 // loop 2: `for _, sv := range v` of the []string case
 //@ loop 2 invariant 0 <= $done && $done <= len(v#LJstring)
 //@ loop 2 invariant entry(s#uint32) + blen(namesUpto(v#LJstring, len(v#LJstring))) < 4294967296 ==> s#uint32 == entry(s#uint32) + blen(namesUpto(v#LJstring, $done))
@@ -1425,3 +1443,36 @@ package p9p
 //@ requires v.(*Fcall) != nil
 //@ requires len(data) >= 1 ==> T0 == 110 || T0 == 111
 //@ ensures proportionate: dynalloc() - old(dynalloc()) <= 24 * len(data)
+
+// Rwalk: the qid list is encoded through pointers to the slice's elements.
+//@ func (codec9p).Marshal#rwalk
+//@ property C01
+//@ timeout 60
+//@ use wirekind wiredef bytes noassoc assoc_r
+//@ elemptrs
+//@ dyn v : *Fcall
+//@ dyn v.Message : MessageRwalk
+//@ let F = (*v.(*Fcall))
+//@ requires F.Type == kindOf(F.Message) && representable(F)
+//@ ensures layout: err == nil && bytes(result0) == old(layout(F))
+
+//@ func (codec9p).Size#rwalk
+//@ property C01
+//@ timeout 60
+//@ use wirekind wiredef wiremono bytes noassoc assoc_r
+//@ elemptrs
+//@ dyn v : *Fcall
+//@ dyn v.Message : MessageRwalk
+//@ let F = (*v.(*Fcall))
+//@ requires representable(F) && blen(layout(F)) < 4294967296
+//@ ensures size: result == blen(layout(F))
+
+// Induction on the prefix length: n qids encode to 13 n bytes.
+//@ func lemmaQidsLen
+//@ property C01
+//@ use wiredef bytes
+//@ axiomatize [wiremono] qids_len {qidsUpto(s, n)}
+//@ modifies nothing
+//@ requires 0 <= n && n <= len(s)
+//@ ensures blen(qidsUpto(s, n)) == 13 * n
+//@ loop 1 invariant 0 <= i && i <= n && blen(qidsUpto(s, i)) == 13 * i
